@@ -104,6 +104,11 @@ def run(ctx):
                       "the %s pattern is not built from the input (text=%s, compiled matcher ok=%s, likely unset=%s)" % (name, term_str(txt)[:60], okc, oklk), fn_span(body), nontrivial=(name != "Simple"))
         errprop(ctx, NEW, paths, body, rule="D1-ERRPROP", no_effects_after_error=(), floor=2)
 
+    delegate_and_fast_reject(ctx)
+
+
+def delegate_and_fast_reject(ctx, only_fast_reject=False, P=''):
+    fx = ctx.fx
     # ---- D2 / D3(iii)
     paths = ctx.paths(MATCHES)
     body = ctx.body(MATCHES)
@@ -126,7 +131,7 @@ def run(ctx):
             "Glob": lambda r: (is_call(r, "glob::Pattern::matches") and mentions(call_args(r)[0], lambda s: s[0] == "field" and s[3] == "glob") and strip_refs(call_args(r)[1]) == ("param", 2)),
             "Simple": lambda r: bool(eq_call(r)) and not eq_call(r)[0] and {("pat" if mentions(x, lambda s: s[0] == "field" and s[3] == "pattern") else strip_refs(x)) for x in eq_call(r)[1:]} == {"pat", ("param", 2)},
         }
-        for v in ("Alternate", "Dewey", "Glob", "Simple"):
+        for v in (() if only_fast_reject else ("Alternate", "Dewey", "Glob", "Simple")):
             ps = table.get(v, [])
             if not ps:
                 ctx.violation("D2-DELEGATE", MATCHES, "type=%s" % v, "no path handles pattern type %s" % v, fn_span(body))
@@ -150,7 +155,7 @@ def run(ctx):
             q = [c for c in p.conds() if is_call(c.term, QUICK)]
             ok = ok and const_of(p.end[1]) is False and bool(q) and q[-1].fact == ("eq", False) and bool(lk) and \
                 mentions(call_args(q[-1].term)[0], lambda s: s[0] == "field" and s[3] == "pattern") and strip_refs(call_args(q[-1].term)[1]) == ("param", 2)
-        ctx.check(ok, "D3-EARLY-EXIT", MATCHES, "guard", "delegate skipped only when !likely && !quick_pkg_match(&self.pattern, pkg)",
+        ctx.check(ok, P + "D3-EARLY-EXIT", MATCHES, "guard", "delegate skipped only when !likely && !quick_pkg_match(&self.pattern, pkg)",
                   "matches() returns without consulting the delegate on a path not guarded by `!self.likely && !quick_pkg_match(&self.pattern, pkg)`", fn_span(body))
 
     # ---- D3 (i)
@@ -173,9 +178,9 @@ def run(ctx):
                         other.append(nm)
         badc = sorted(c for c in consts if c in FORBIDDEN or not c.isascii())
         badk = sorted(classes - OK_CLASS)
-        ctx.check(not badc and not badk and not other, "D3-SIMPLE-CHAR", SIMPLE, "accepted-set", "accepts %s + %s" % (sorted(classes), sorted(consts)),
+        ctx.check(not badc and not badk and not other, P + "D3-SIMPLE-CHAR", SIMPLE, "accepted-set", "accepts %s + %s" % (sorted(classes), sorted(consts)),
                   "is_simple_char accepts %s %s: characters with a special meaning in some pattern type must stop the fast-reject scan" % (badc or "", badk or other or ""), fn_span(body))
-        ctx.floor("D3-SIMPLE-CHAR", SIMPLE, "accepted classes/constants", len(consts) + len(classes), 1)
+        ctx.floor(P + "D3-SIMPLE-CHAR", SIMPLE, "accepted classes/constants", len(consts) + len(classes), 1)
 
     # ---- D3 (ii)
     paths = ctx.paths(QUICK)
@@ -188,7 +193,7 @@ def run(ctx):
             if v is True:
                 continue
             if v is not False:
-                ctx.violation("D3-QUICK", QUICK, "non-constant-return-%d" % i, "quick_pkg_match returns %s" % term_str(p.end[1])[:80], fn_span(body))
+                ctx.violation(P + "D3-QUICK", QUICK, "non-constant-return-%d" % i, "quick_pkg_match returns %s" % term_str(p.end[1])[:80], fn_span(body))
                 continue
             nfalse += 1
             # ordinal of next() calls per iterator local
@@ -217,6 +222,6 @@ def run(ctx):
                     pat_next = strip_refs(x) if ox[0] == ("param", 1) else strip_refs(y)
                     sc = [c for c in p.conds() if is_call(c.term, SIMPLE) and mentions(call_args(c.term)[0], lambda s: s == pat_next)]
                     ok = bool(sc) and sc[-1].fact == ("eq", True)
-            ctx.check(ok, "D3-QUICK", QUICK, "false-path-%d" % nfalse, "false only on k-th pattern char (simple) != k-th name char",
+            ctx.check(ok, P + "D3-QUICK", QUICK, "false-path-%d" % nfalse, "false only on k-th pattern char (simple) != k-th name char",
                       "quick_pkg_match returns false on a path that is not `k-th pattern character, already shown simple, differs from the k-th name character`", fn_span(body))
-        ctx.floor("D3-QUICK", QUICK, "false-returning paths", nfalse, 1)
+        ctx.floor(P + "D3-QUICK", QUICK, "false-returning paths", nfalse, 1)
